@@ -32,6 +32,12 @@ def setup(extra_modules=()):
     _ready = True
 
 
+class Label(str):
+    """A choice-point label that also says which alternatives fire a parked environment thread:
+    .lazy = ((alternative index, that thread's own label), ...).  Compares and hashes as the plain label."""
+    lazy = ()
+
+
 class Exec:
     """One execution: scheduler + chooser + environment."""
 
@@ -52,6 +58,11 @@ class Exec:
     def _choose(self, n, label=''):
         if self.frozen:
             return 0
+        lz = getattr(self.s, 'lazy_options', ())
+        if lz:
+            label = Label(label)
+            label.lazy = lz
+            self.s.lazy_options = ()
         return self.ch(n, label)
 
     def freeze(self):
